@@ -258,14 +258,20 @@ func CreateTable(s *sim.Src, name string, fancy int, wantWithoutRowid bool, othe
 		seen := map[int]bool{}
 		for len(parts) < n {
 			k := s.Draw(len(cols), "ic")
+			dup := false
 			if seen[k] {
-				if fancy < 5 || !s.Chance(1, 10, "dupcol") {
+				// the same column twice: SQLite keeps both when their collations differ
+				// (PRIMARY KEY (k COLLATE NOCASE, k) stores k twice in a WITHOUT ROWID table)
+				if fancy < 3 || !s.Chance(1, 5, "dupcol") {
 					continue
 				}
+				dup = true
 			}
 			seen[k] = true
 			p := IdentRef(s, cols[k].name, fancy)
-			if s.Chance(1, 4, "iccoll") {
+			if dup && s.Chance(3, 4, "dupcoll") {
+				p += " COLLATE " + collations[s.Draw(len(collations), "coll")]
+			} else if s.Chance(1, 4, "iccoll") {
 				p += " COLLATE " + collations[s.Draw(len(collations), "coll")]
 			}
 			switch s.Weighted([]int{5, 1, 3}, "icdir") {
@@ -287,6 +293,25 @@ func CreateTable(s *sim.Src, name string, fancy int, wantWithoutRowid bool, othe
 				p += " DESC"
 			}
 			tcons = append(tcons, "PRIMARY KEY ("+p+")")
+		} else if fancy > 0 && s.Chance(1, 6, "pk-repeats-column") {
+			// the same column twice under different collations, any position: SQLite keeps
+			// both key columns (and stores the column twice in a WITHOUT ROWID table)
+			k := s.Draw(len(cols), "repcol")
+			c1 := collations[s.Draw(len(collations), "coll")]
+			parts := []string{IdentRef(s, cols[k].name, fancy) + " COLLATE " + c1}
+			second := IdentRef(s, cols[k].name, fancy)
+			if s.Chance(1, 2, "repcoll2") {
+				second += " COLLATE " + collations[s.Draw(len(collations), "coll")]
+			}
+			if s.Chance(1, 3, "repdesc") {
+				second += " DESC"
+			}
+			if len(cols) > 1 && s.Chance(1, 2, "repmid") {
+				o := (k + 1 + s.Draw(len(cols)-1, "repother")) % len(cols)
+				parts = append(parts, IdentRef(s, cols[o].name, fancy))
+			}
+			parts = append(parts, second)
+			tcons = append(tcons, "PRIMARY KEY ("+strings.Join(parts, ", ")+")")
 		} else {
 			tcons = append(tcons, "PRIMARY KEY ("+indexedCols(3)+")")
 		}
